@@ -4,7 +4,7 @@ prop("C05", pkg="c05",
           "space, raw control byte) through Valid, and those of one token less through every syntax-only consumer (RawMessage on encode and decode, MarshalJSON "
           "output, skipped unknown field, surplus array element, map[string]RawMessage, generic decode, Decoder framing); (3) a special byte/escape at every "
           "position of strings of length 0..40 in 8 embeddings; (4) nesting depths around 10000; (5) rapid-generated valid, mutated, alphabet-random and "
-          "multi-KiB documents; (6) each of 31 well- and ill-formed tokens starting 0..12 bytes before the Decoder's 32 KiB and 64 KiB buffer boundaries in 4 embeddings; (7) every byte value 0..255 substituted at and inserted before every position of 18 small documents covering every token form. Oracle: encoding/json.Valid and the same consumer calls on encoding/json. Non-trivial = at least 2 bytes and the first byte "
+          "multi-KiB documents; (6) each of 31 well- and ill-formed tokens starting 0..12 bytes before the Decoder's 32 KiB and 64 KiB buffer boundaries in 4 embeddings; (7) every byte value 0..255 substituted at and inserted before every position of 18 small documents covering every token form. The consumers include syntax-only targets already holding data (populated map[string]RawMessage / map[string]any / []RawMessage, an any holding a map then a slice) and the raw message as a map value that is not the last key, a slice / array element and an int-keyed map value on the encoding side; the nesting documents go through every consumer. Oracle: encoding/json.Valid and the same consumer calls on encoding/json. Non-trivial = at least 2 bytes and the first byte "
           "can start a JSON text; distinct = counted by construction for the byte enumeration, FNV-64 of the document otherwise.",
      quick=dict(shards=16, scale=1, timeout=900),
      thorough=dict(shards=16, scale=14, timeout=3400),
